@@ -11,6 +11,7 @@ import WpModel.Model.PageCounters
 import WpModel.Model.TargetText
 import WpModel.Model.CounterScope
 import WpModel.Model.ListHints
+import WpModel.Model.ContentFns
 
 namespace Wp.Witness.C15
 open Wp.Counters Wp.Repaginate
@@ -152,6 +153,21 @@ theorem ol_start_not_integer :
     applyHint Gen.olHint Gen.uaOl (some [.ident "abc"]) =
       ⟨.other, [("list-item", 0), ("abc", 0)], [], some [("list-item", -1)]⟩ ∧
     Spec.stack (Spec.machine.push (Spec.update Spec.init (applyHint Gen.olHint Gen.uaOl none))) "list-item" = [0] := by
+  decide
+
+open Wp.ContentFns in
+/-- finding `target-counter-non-ident-style-crash`: `target-counter("#t", c, "x")` — `get_target` reads the
+counter style with `get_keyword`, which is Python `None` for a string (or `symbols()`, or a number): the item
+is accepted with the style `None`, and `render_value(value, None)` fails `assert counter or counter_name`
+while boxes are built.  `counter(c, "x")` goes through `list_style_type` and keeps the string style.
+Refutes: "an accepted target-counter() names a counter style" (`Parsed.targetCounter` with `style = none`). -/
+theorem target_counter_non_ident_style :
+    targetFn "target-counter" [.str "#t", .comma, .ident "c", .comma, .str "x"] =
+      some (.targetCounter (.str "#t") "c" none) ∧
+    targetFn "target-counter" [.str "#t", .comma, .ident "c", .comma, .other] =
+      some (.targetCounter (.str "#t") "c" none) ∧
+    counterFn "counter" [.ident "c", .comma, .str "x"] = some (.counter "c" (.str "x")) ∧
+    counterFn "counter" [.ident "c", .comma, .other] = none := by
   decide
 
 end Wp.Witness.C15
